@@ -1,6 +1,6 @@
 (* family 6: PUS telemetry and the service-17 wrapper *)
 From Coq Require Import ZArith List Bool.
-From SP Require Import Base.Result Base.Bytes Base.Crc16 Run.Marshal Run.DispSph Model.SpacePacket Model.PusTc Model.PusTm Spec.PusSpec.
+From SP Require Import Base.Result Base.Bytes Base.Crc16 Run.Marshal Run.DispSph Model.SpacePacket Model.PusTc Model.PusTm Model.PusTcHist Model.PusTmHist Spec.PusSpec.
 Import ListNotations.
 Open Scope Z_scope.
 
@@ -28,6 +28,49 @@ Definition tm_op_of (l : list Z) : tm_op :=
   | _ => TmPack
   end.
 
+(* ---- extended histories (op 620) ---- *)
+Definition tmx_op_of (l : list Z) : tmx_op :=
+  match l with
+  | 0 :: _ => YPack
+  | 1 :: _ => YPackNoRecalc
+  | 2 :: _ => YCalcCrc
+  | 3 :: d => YSetData d
+  | 5 :: v :: _ => YSetHdr 3 v
+  | 7 :: _ => YView
+  | 8 :: _ => YInspect
+  | 9 :: d => YSetData d
+  | 10 :: d => YExtendData d
+  | 11 :: v :: _ => YSetHdr 4 v
+  | 22 :: d => YSetStamp d
+  | 23 :: l => YNewHdr l
+  | 24 :: s :: ss :: mc :: de :: rf :: d => YNewSec [s; ss; mc; de; rf] d
+  | 25 :: _ => YEq
+  | 26 :: _ => YRoundtrip
+  | 27 :: _ => YSwitch
+  | 30 :: f :: v :: _ => YSetHdr f v
+  | 31 :: f :: v :: _ => YSetSec f v
+  | _ => YInspect
+  end.
+
+Definition tm_inspect (t : tm) : args :=
+  tm_fields t ++
+  [[tms_service (tm_sec t); tms_subservice (tm_sec t); apid (tm_sph t); scount (tm_sph t);
+    ver (tm_sph t); pid_raw (sph_pid (tm_sph t)); psc_raw (sph_psc (tm_sph t));
+    ptype (tm_sph t); shf (tm_sph t); sflags (tm_sph t)];
+   tms_stamp (tm_sec t); tm_src t].
+
+Definition tmx_obs (r : res tmx_out) : args :=
+  match r with
+  | Err e => [[1; canon_code e]]
+  | Ok PNone => [[0]]
+  | Ok (PBytes b) => [[0]; b]
+  | Ok (PState t) => [0] :: tm_inspect t
+  | Ok (PEq x y) => [[0]; [b2z x; b2z y]]
+  | Ok (PRound e u) => [0] :: [b2z e] :: tm_fields u
+  end.
+
+Definition tmx_closing : list tmx_op := [YInspect; YView; YInspect; YPack; YInspect].
+
 Definition run_tm (op : Z) (a : args) : args :=
   match op with
   | 600 => ret tm_fields (tm_of_args a)
@@ -51,6 +94,10 @@ Definition run_tm (op : Z) (a : args) : args :=
               do sp <- tm_to_space_packet_pack u;
               do p <- tm_pack u;
               Ok [sp; fst p; [tm_packet_len u]])
+  | 620 => ret (fun r => r)
+             (do t <- tmx_make (lst 0 a) (lst 1 a) (lst 2 a);
+              let '(_, outs) := tmx_run t t (map tmx_op_of (skipn 3 a) ++ tmx_closing) in
+              Ok (flat_map tmx_obs outs ++ [[0; 0]]))
   | 650 => [[0]; tm_layout (int 0 0 a) (int 0 1 a) (int 0 2 a) (int 0 3 a) (int 0 4 a)
                            (int 0 5 a) (int 0 6 a) (int 0 7 a) (lst 1 a) (lst 2 a)]
   | _ => [[1; 97]]
